@@ -16,18 +16,19 @@ import (
 
 // WorkerOpts selects the slice of work one worker process performs.
 type WorkerOpts struct {
-	Prop      string
-	Tier      string
-	Seed      uint64
-	Shard     int
-	Of        int
-	From, To  int // unit range [From,To); To<=0 means all
-	Careful   bool
-	Hashes    bool
-	WorkDir   string
-	ReplayDir string
-	Deadline  time.Duration // wall-clock cap; 0 = none
-	MemLimit  uint64
+	Prop        string
+	Tier        string
+	Seed        uint64
+	Shard       int
+	Of          int
+	From, To    int // unit range [From,To); To<=0 means all
+	Careful     bool
+	CarefulFile string // where careful mode saves each plan before executing it
+	Hashes      bool
+	WorkDir     string
+	ReplayDir   string
+	Deadline    time.Duration // wall-clock cap; 0 = none
+	MemLimit    uint64
 }
 
 // Msg is one line of the worker -> driver protocol.
@@ -136,7 +137,7 @@ func RunWorker(o WorkerOpts) int {
 			mySub := sub
 			sub++
 			if o.Careful {
-				os.WriteFile(o.WorkDir+"/careful-plan.json", planJSON(plan), 0o644)
+				os.WriteFile(o.CarefulFile, planJSON(plan), 0o644)
 				emit(Msg{Type: "begin", Unit: u, Sub: mySub})
 			}
 			curPlan.Store(&plan)
